@@ -108,10 +108,19 @@ func TestVerifReplay_Hashes(t *testing.T) {
 			}
 		}
 	}
-	// BridgeAddress
-	for _, id := range ids {
-		want := sdk.AccAddress(sdkaddress.Module(ModuleName, vrBe64(id))[:20])
-		_ = want
+	// BridgeAddress: a function of the id alone (ids congruent modulo small powers of two included), asked twice in two orders
+	addrIDs := append(append([]uint64(nil), ids...), 2, 257, 258, 1+1<<16, 1+1<<32, 513)
+	for round := 0; round < 2; round++ {
+		for k := range addrIDs {
+			id := addrIDs[k]
+			if round == 1 {
+				id = addrIDs[len(addrIDs)-1-k]
+			}
+			want := sdk.AccAddress(sdkaddress.Module(ModuleName, vrBe64(id)))
+			if got := BridgeAddress(id); !bytes.Equal(got, want) {
+				fail("BridgeAddress(%d) = %s on the real code, the module-address derivation over the big-endian id gives %s", id, got, want)
+			}
+		}
 	}
 	// withdrawal leaf
 	for _, id := range ids[:4] {
